@@ -61,3 +61,125 @@ def cfg_name(*parts):
 
 def chain_for(ty):
     return list(TYPE_CHAINS[ty])
+
+
+# ---------------------------------------------------------------- terminals on u8-valued pipelines
+PRED = "move |x: &{T}| {{ let r = {V} & 4 == 0; if r {{ model::matched(); }} r }}"
+PRED_SEQ = "move |x: &{T}| {V} & 4 == 0"
+
+
+def pred(kind, seq=False):
+    from gen.dsl import KT, fderef
+    t = KT[kind]
+    v = fderef(kind)
+    return (PRED_SEQ if seq else PRED).format(T=t, V=v)
+
+
+def item_val(kind, x):
+    """u8 value of item x (by value) of the given kind"""
+    return val_of(kind, x)
+
+
+def terminal_code(p, params, term, n):
+    """-> Rust statements computing the parallel result, the oracle and asserting agreement.
+    p: Pipeline; params: string appended after the source; term: terminal name."""
+    k = p.final_kind()
+    par = p.par(params)
+    seq = p.seq()
+    T = {"ref": "&u8", "val": "u8", "idx": "usize"}[k]
+    v = lambda x: item_val(k, x)
+    s = ""
+    if term == "count":
+        s += f"    let r = {par}.count();\n    let e = {seq}.count();\n"
+        s += '    assert!(r == e, "count differs from the sequential count");\n'
+    elif term in ("reduce_xor", "reduce_add", "reduce_min", "reduce_max"):
+        assert k == "val"
+        op = {"reduce_xor": "a ^ b", "reduce_add": "a.wrapping_add(b)", "reduce_min": "if a <= b { a } else { b }",
+              "reduce_max": "if a >= b { a } else { b }"}[term]
+        s += f"    let r = {par}.reduce(|a: u8, b: u8| {op});\n    let e = {seq}.reduce(|a: u8, b: u8| {op});\n"
+        s += '    assert!(r == e, "reduce differs from the sequential fold");\n'
+        s += "    kani::cover!(e.is_none());\n    kani::cover!(e.is_some());\n"
+    elif term == "reduce_ref_min":
+        assert k == "ref"
+        s += f"    let r = {par}.reduce(|a: &u8, b: &u8| if *a <= *b {{ a }} else {{ b }}).copied();\n"
+        s += f"    let e = {seq}.reduce(|a: &u8, b: &u8| if *a <= *b {{ a }} else {{ b }}).copied();\n"
+        s += '    assert!(r == e, "reduce differs from the sequential fold");\n'
+    elif term in ("min", "max"):
+        assert k in ("val", "ref")
+        s += f"    let r = {par}.{term}();\n    let e = {seq}.{term}();\n"
+        s += f'    assert!(r == e, "{term} differs");\n'
+    elif term == "sum":
+        conv = f"move |x: {T}| {v('x')} as u16"
+        s += f"    let r: u16 = {par}.map({conv}).sum();\n    let e: u16 = {seq}.map({conv}).sum();\n"
+        s += '    assert!(r == e, "sum differs");\n'
+    elif term == "fold":
+        assert k == "val"
+        s += f"    let r = {par}.fold(|| 0u8, |a: u8, b: u8| a ^ b);\n    let e = {seq}.fold(0u8, |a: u8, b: u8| a ^ b);\n"
+        s += '    assert!(r == e, "fold differs");\n'
+    elif term in ("min_by_key", "max_by_key"):
+        assert k == "val"
+        s += f"    let r = {par}.{term}(|x: &u8| *x >> 4);\n"
+        s += f"    let ek = {seq}.map(|x: u8| x >> 4).{term[:3]}();\n"
+        s += f'    assert!(r.map(|x| x >> 4) == ek, "{term}: key is not extremal / None mismatch");\n'
+        s += f'    if let Some(x) = r {{ assert!({seq}.any(|y: u8| y == x), "{term}: result is not a surviving element"); }}\n'
+    elif term in ("min_by", "max_by"):
+        assert k == "val"
+        s += f"    let r = {par}.{term}(|x: &u8, y: &u8| (*x >> 4).cmp(&(*y >> 4)));\n"
+        s += f"    let ek = {seq}.map(|x: u8| x >> 4).{term[:3]}();\n"
+        s += f'    assert!(r.map(|x| x >> 4) == ek, "{term}: key is not extremal / None mismatch");\n'
+        s += f'    if let Some(x) = r {{ assert!({seq}.any(|y: u8| y == x), "{term}: result is not a surviving element"); }}\n'
+    elif term == "find":
+        s += f"    let r = {par}.find({pred(k)});\n    let e = {seq}.find({pred(k, True)});\n"
+        s += cmp_opt(k, "find does not return the first match in source order")
+    elif term == "first":
+        s += f"    let r = {par}.first();\n    let e = {seq}.next();\n"
+        s += cmp_opt(k, "first does not return the first element in source order")
+    elif term == "any":
+        s += f"    let pf = {pred(k, True)};\n    let r = {par}.any({pred(k)});\n    let e = {seq}.any(|x| pf(&x));\n"
+        s += '    assert!(r == e, "any differs");\n    kani::cover!(e);\n    kani::cover!(!e);\n'
+    elif term == "all":
+        s += f"    let pf = {pred(k, True)};\n    let r = {par}.all({pred(k)});\n    let e = {seq}.all(|x| pf(&x));\n"
+        s += '    assert!(r == e, "all differs");\n    kani::cover!(e);\n    kani::cover!(!e);\n'
+    elif term in ("find_with_index", "first_with_index"):
+        if term == "find_with_index":
+            s += f"    let r = {par}.find_with_index({pred(k)});\n"
+            single = f"{p.seq_single('i')}.find({pred(k, True)}).is_some()"
+            val_of_single = f"{p.seq_single('i')}.find({pred(k, True)})"
+        else:
+            s += f"    let r = {par}.first_with_index();\n"
+            single = f"{p.seq_single('i')}.next().is_some()"
+            val_of_single = f"{p.seq_single('i')}.next()"
+        s += f"    let mut e = None;\n    let mut i = 0;\n    while i < {n} {{ if e.is_none() && {single} {{ e = Some((i, {val_of_single}.unwrap())); }} i += 1; }}\n"
+        if k == "ref":
+            s += '    assert!(r.map(|x| (x.0, *x.1)) == e.map(|x| (x.0, *x.1)), "index/value is not that of the first match in the source");\n'
+        else:
+            s += '    assert!(r == e, "index/value is not that of the first match in the source");\n'
+        s += "    kani::cover!(e.is_none());\n    kani::cover!(matches!(e, Some((i, _)) if i > 0));\n"
+    else:
+        raise ValueError(term)
+    return s
+
+
+def cmp_opt(kind, msg):
+    if kind == "ref":
+        s = f'    assert!(r.copied() == e.copied(), "{msg}");\n'
+    else:
+        s = f'    assert!(r == e, "{msg}");\n'
+    return s + "    kani::cover!(e.is_none());\n    kani::cover!(e.is_some());\n"
+
+
+def scalar_harness(prop, term, ty, src, n, t, c, chunk_expr=None, extra_pre="", extra_post="", tag="", ops=None,
+                   weight=None, available=None, covers=True, nt_expr=None):
+    p = Pipeline(src, ops if ops is not None else chain_for(ty))
+    params = params_str(nt_expr if nt_expr is not None else t, chunk_expr if chunk_expr else c)
+    body = sched_prelude(n, available or t, src=src)
+    body += extra_pre
+    body += terminal_code(p, params, term, n)
+    if covers:
+        body += sched_covers(n, t)
+    body += extra_post
+    name = cfg_name(prop, term, ty, src, f"n{n}", f"t{t}", f"c{c}", tag)
+    return H(name, body, {"terminal": term, "type": p.type(), "kernel": KERNEL_OF_TYPE[p.type()], "src": src, "n": n,
+                          "threads": t, "chunk": chunk_expr or f"Exact({c})", "schedule": "symbolic",
+                          "pipeline": p.descr()},
+             unwind=n + 2, weight=weight or n * t * (2 if c == 1 else 3))
